@@ -149,6 +149,13 @@ func (c *Ctx) decodeInputOnlyRule(r *Report, rule string, scope []*ssa.Function)
 						nLazy++
 						continue
 					}
+					// a guard against a missing object: the nil side only fails, and the other side goes on to use
+					// the object exactly as the code without the guard would (which crashed on nil) - what the call
+					// reads of the object afterwards is judged where it is read
+					if (bo.X == ssa.Value(l) || bo.Y == ssa.Value(l)) && isPointerLike(l.Type()) && c.onlyErrorExit(nilSide) {
+						nLazy++
+						continue
+					}
 				}
 				nBad++
 				what := "test"
